@@ -103,3 +103,33 @@ def replay_file(path):
         if p.returncode not in (0, 1):
             print(p.stderr[-2000:])
         return p.returncode
+
+
+def module_standin(pid, module, args, what, bound):
+    """Run `python -m <module> <args>` in the overlay; RESULT json with ok/evaluations/distinct/sample[/case/errors]."""
+    with Overlay() as ov:
+        res = run_module(ov, module, args)
+    standin = {"what": what, "bound": bound, "evaluations": res.get("evaluations", 0), "distinct": res.get("distinct", 0),
+               "failures": 0 if res.get("ok") else 1, "sample": res.get("sample")}
+    viol = []
+    if res.get("ok") is False:
+        os.makedirs(os.path.join(ROOT, "replays", pid), exist_ok=True)
+        import hashlib
+        h = hashlib.sha256(json.dumps(res.get("case"), sort_keys=True, default=str).encode()).hexdigest()[:10]
+        path = os.path.join(ROOT, "replays", pid, "case-%s.json" % h)
+        with open(path, "w") as f:
+            json.dump({"property": pid, "kind": "bounded-case", "obligation": None,
+                       "failing_input": {"module": module, "case": res.get("case")}, "errors": res.get("errors")},
+                      f, indent=1, default=str)
+        viol.append((path, "; ".join(map(str, (res.get("errors") or [])[:2]))))
+    elif res.get("ok") is None:
+        raise RuntimeError("%s crashed: %s\n%s" % (module, res.get("crash"), res.get("trace", res.get("stderr", ""))))
+    return standin, viol
+
+
+def module_witness(module, args):
+    with Overlay() as ov:
+        res = run_module(ov, module, args)
+    if res.get("ok") is False:
+        return {"module": module, "case": res.get("case"), "errors": res.get("errors")}
+    return None
